@@ -28,15 +28,15 @@ CONSTANTS ModD3,    \* one of ModD3 members of g/n=3
 (* All tables are ratios of integer "numerator" matrices over a power of the
    determinant (Inv = Adj/det); they are computed and verified over the integers
    and turned into normalised rationals only when printed. *)
-IE(n, p, q) == [i \in 1..n |-> [j \in 1..n |-> IF i = p /\ j = q THEN 1 ELSE 0]]
-IAdd(A, B) == [i \in 1..Len(A) |-> [j \in 1..Len(A[i]) |-> A[i][j] + B[i][j]]]
-ISub(A, B) == [i \in 1..Len(A) |-> [j \in 1..Len(A[i]) |-> A[i][j] - B[i][j]]]
-IZeroM(n) == [i \in 1..n |-> [j \in 1..n |-> 0]]
-IZeroV(n) == [i \in 1..n |-> 0]
-IAddV(x, y) == [i \in 1..Len(x) |-> x[i] + y[i]]
-ITrace(A) == SumInts([i \in 1..Len(A) |-> A[i][i]])
-RatM(N, den) == [i \in 1..Len(N) |-> [j \in 1..Len(N[i]) |-> Rat(N[i][j], den)]]
-RatV(x, den) == [i \in 1..Len(x) |-> Rat(x[i], den)]
+IE(n, p, q) == TLCEval([i \in 1..n |-> TLCEval([j \in 1..n |-> IF i = p /\ j = q THEN 1 ELSE 0])])
+IAdd(A, B) == TLCEval([i \in 1..Len(A) |-> TLCEval([j \in 1..Len(A[i]) |-> A[i][j] + B[i][j]])])
+ISub(A, B) == TLCEval([i \in 1..Len(A) |-> TLCEval([j \in 1..Len(A[i]) |-> A[i][j] - B[i][j]])])
+IZeroM(n) == TLCEval([i \in 1..n |-> TLCEval([j \in 1..n |-> 0])])
+IZeroV(n) == TLCEval([i \in 1..n |-> 0])
+IAddV(x, y) == TLCEval([i \in 1..Len(x) |-> x[i] + y[i]])
+ITrace(A) == SumInts(TLCEval([i \in 1..Len(A) |-> A[i][i]]))
+RatM(N, den) == TLCEval([i \in 1..Len(N) |-> TLCEval([j \in 1..Len(N[i]) |-> Rat(N[i][j], den)])])
+RatV(x, den) == TLCEval([i \in 1..Len(x) |-> Rat(x[i], den)])
 
 (* ------------------------------------------------------------ determinant *)
 DDet(A, v) == Det(IAdd(A, IE(Len(A), v[1], v[2]))) - Det(A)
@@ -47,13 +47,13 @@ D2Det(A, v, w) ==
 
 (* ------------------------------------------------------------ inverse, solve *)
 (* X = adj/det.  d X / d A_v = - X E_v X = NDInv / det^2 *)
-NDInv(adj, v) == [k \in 1..Len(adj) |-> [l \in 1..Len(adj) |-> -(adj[k][v[1]] * adj[v[2]][l])]]
+NDInv(adj, v) == TLCEval([k \in 1..Len(adj) |-> TLCEval([l \in 1..Len(adj) |-> -(adj[k][v[1]] * adj[v[2]][l])])])
 (* d2 X / dA_v dA_w = X E_v X E_w X + X E_w X E_v X = ND2Inv / det^3 *)
 ND2Inv(adj, v, w) ==
-  [k \in 1..Len(adj) |-> [l \in 1..Len(adj) |->
-     adj[k][v[1]] * adj[v[2]][w[1]] * adj[w[2]][l] + adj[k][w[1]] * adj[w[2]][v[1]] * adj[v[2]][l]]]
+  TLCEval([k \in 1..Len(adj) |-> TLCEval([l \in 1..Len(adj) |->
+     adj[k][v[1]] * adj[v[2]][w[1]] * adj[w[2]][l] + adj[k][w[1]] * adj[w[2]][v[1]] * adj[v[2]][l]])])
 (* x = xn/det (Cramer numerators).  dx/dA_v = - X E_v x = NDSolA / det^2 *)
-NDSolA(adj, xn, v) == [k \in 1..Len(adj) |-> -(adj[k][v[1]] * xn[v[2]])]
+NDSolA(adj, xn, v) == TLCEval([k \in 1..Len(adj) |-> -(adj[k][v[1]] * xn[v[2]])])
 
 (* ------------------------------------------------------------ product *)
 DProdA(B, v) == MulII(IE(Len(B), v[1], v[2]), B)
@@ -61,8 +61,8 @@ DProdB(A, v) == MulII(A, IE(Len(A), v[1], v[2]))
 D2ProdAB(n, v, w) == MulII(IE(n, v[1], v[2]), IE(n, w[1], w[2]))
 
 (* ------------------------------------------------------------ symmetric directions *)
-SymDir(n, v) == [i \in 1..n |-> [j \in 1..n |->
-                  IF (i = v[1] /\ j = v[2]) \/ (i = v[2] /\ j = v[1]) THEN 1 ELSE 0]]
+SymDir(n, v) == TLCEval([i \in 1..n |-> TLCEval([j \in 1..n |->
+                  IF (i = v[1] /\ j = v[2]) \/ (i = v[2] /\ j = v[1]) THEN 1 ELSE 0])])
 (* d X = - X S X = NDInvSym / det^2 ;  d ln det = tr(X S) = NDLogDetSym / det *)
 NDInvSym(adj, v) == ScaleM(-1, MulII(MulII(adj, SymDir(Len(adj), v)), adj))
 NDLogDetSym(adj, v) == ITrace(MulII(adj, SymDir(Len(adj), v)))
@@ -75,7 +75,7 @@ NDChol(L, v) ==
   LET n == Len(L)
       aL == Adj(L)
       M == MulII(MulII(aL, SymDir(n, v)), Transpose(aL))
-      Phi2 == [i \in 1..n |-> [j \in 1..n |-> IF i > j THEN 2 * M[i][j] ELSE IF i = j THEN M[i][i] ELSE 0]]
+      Phi2 == TLCEval([i \in 1..n |-> TLCEval([j \in 1..n |-> IF i > j THEN 2 * M[i][j] ELSE IF i = j THEN M[i][i] ELSE 0])])
   IN MulII(L, Phi2)
 LowerPairs(n) == LET ps == {q \in (1..n) \X (1..n) : q[2] <= q[1]}
                  IN SortSeq(SetToSeq(ps), LAMBDA a, b : a[1] < b[1] \/ (a[1] = b[1] /\ a[2] < b[2]))
@@ -85,35 +85,36 @@ LowerPairs(n) == LET ps == {q \in (1..n) \X (1..n) : q[2] <= q[1]}
 NV == 3
 RECURSIVE RPowI(_, _)
 RPowI(a, k) == IF k = 0 THEN ROne ELSE RMul(a, RPowI(a, k - 1))
-TermVal(t, x) == RMul(RInt(t.c), RProdSeq([i \in 1..NV |-> RPowI(x[i], t.e[i])]))
-PolyVal(P, x) == RSumSeq([k \in 1..Len(P) |-> TermVal(P[k], x)])
+TermVal(t, x) == RMul(RInt(t.c), RProdSeq(TLCEval([i \in 1..NV |-> RPowI(x[i], t.e[i])])))
+PolyVal(P, x) == RSumSeq(TLCEval([k \in 1..Len(P) |-> TermVal(P[k], x)]))
 DTerm(t, i) == IF t.e[i] = 0 THEN [c |-> 0, e |-> t.e]
                ELSE [c |-> t.c * t.e[i], e |-> [t.e EXCEPT ![i] = @ - 1]]
-DPoly(P, i) == [k \in 1..Len(P) |-> DTerm(P[k], i)]
+DPoly(P, i) == TLCEval([k \in 1..Len(P) |-> DTerm(P[k], i)])
 
 Coefs == <<-2, -1, 1, 2, 3>>
 (* term number t (0-based) of polynomial idx: three exponents 0..2 and a coefficient *)
 PolyTerm(idx, t) ==
   LET d == (idx \div Pow(7, t)) + 11 * t
   IN [c |-> Coefs[(d % 5) + 1], e |-> <<(d \div 5) % 3, (d \div 15) % 3, (d \div 45) % 3>>]
-PolyOf(idx) == [t \in 1..3 |-> PolyTerm(idx, t - 1)]
+PolyOf(idx) == TLCEval([t \in 1..3 |-> PolyTerm(idx, t - 1)])
 (* evaluation points: halves, away from nothing in particular (polynomials) *)
 Halves == <<-3, -2, -1, 1, 2, 3, 5>>
-PointOf(idx) == [i \in 1..NV |-> Rat(Halves[((idx \div Pow(7, i - 1)) % 7) + 1], 2)]
+PointOf(idx) == TLCEval([i \in 1..NV |-> Rat(Halves[((idx \div Pow(7, i - 1)) % 7) + 1], 2)])
 PolyCount == 135 * 135
 (* the map F = (P_idx, P_idx+1, P_idx+2) : R^3 -> R^3 *)
-MapOf(idx) == [k \in 1..3 |-> PolyOf(idx + 37 * (k - 1))]
+MapOf(idx) == TLCEval([k \in 1..3 |-> PolyOf(idx + 37 * (k - 1))])
 
 (* ------------------------------------------------------------ cases *)
 VarPos(n, idx) ==
-  IF n <= 2 THEN [t \in 1..(n * n) |-> <<((t - 1) \div n) + 1, ((t - 1) % n) + 1>>]
+  IF n <= 2 THEN TLCEval([t \in 1..(n * n) |-> <<((t - 1) \div n) + 1, ((t - 1) % n) + 1>>])
   ELSE LET step == IF n = 3 THEN 2 ELSE 3
-       IN [t \in 1..4 |-> LET pos == (idx + step * (t - 1)) % (n * n)
-                          IN <<(pos \div n) + 1, (pos % n) + 1>>]
+       IN TLCEval([t \in 1..4 |-> LET pos == (idx + step * (t - 1)) % (n * n)
+                          IN <<(pos \div n) + 1, (pos % n) + 1>>])
 SymVarPos(n, idx) ==
   LET lp == LowerPairs(n)
   IN IF Len(lp) <= 4 THEN lp
-     ELSE [t \in 1..4 |-> lp[((idx + 3 * (t - 1)) % Len(lp)) + 1]]
+     ELSE LET step == IF Len(lp) % 3 = 0 THEN 5 ELSE 3      \* coprime to Len(lp): four distinct pairs
+          IN TLCEval([t \in 1..4 |-> lp[((idx + step * (t - 1)) % Len(lp)) + 1]])
 
 (* second operand of the product: another member of the same family *)
 Partner(c) ==
@@ -141,19 +142,19 @@ DMatRecord(c) ==
       xn == CramerNum(A, Ramp(n))
       B == MatOf(Partner(c))
       o2 == n <= 2
-  IN [k |-> "dmat", fam |-> c.fam, n |-> n, idx |-> c.idx, a |-> A, det |-> det,
+  IN [k |-> "dmat", fam |-> c.fam, n |-> n, idx |-> c.idx, a |-> A, det |-> det, tri |-> IsUpperTri(A),
       vars |-> vars, kap |-> R2(KappaFrom(A, adj, det)), inv |-> RM2(InvFrom(adj, det)),
       sol |-> RV2(RatV(xn, det)),
-      ddet |-> [v \in 1..V |-> DDet(A, vars[v])],
-      d2det |-> [v \in 1..V |-> [w \in 1..V |-> D2Det(A, vars[v], vars[w])]],
-      dinv |-> [v \in 1..V |-> RM2(RatM(NDInv(adj, vars[v]), det * det))],
-      d2inv |-> IF o2 THEN [v \in 1..V |-> [w \in 1..V |->
-                              RM2(RatM(ND2Inv(adj, vars[v], vars[w]), det * det * det))]] ELSE <<>>,
-      dsola |-> [v \in 1..V |-> RV2(RatV(NDSolA(adj, xn, vars[v]), det * det))],
+      ddet |-> TLCEval([v \in 1..V |-> DDet(A, vars[v])]),
+      d2det |-> TLCEval([v \in 1..V |-> TLCEval([w \in 1..V |-> D2Det(A, vars[v], vars[w])])]),
+      dinv |-> TLCEval([v \in 1..V |-> RM2(RatM(NDInv(adj, vars[v]), det * det))]),
+      d2inv |-> IF o2 THEN TLCEval([v \in 1..V |-> TLCEval([w \in 1..V |->
+                              RM2(RatM(ND2Inv(adj, vars[v], vars[w]), det * det * det))])]) ELSE <<>>,
+      dsola |-> TLCEval([v \in 1..V |-> RV2(RatV(NDSolA(adj, xn, vars[v]), det * det))]),
       b |-> B, c |-> MulII(A, B),
-      dca |-> [v \in 1..V |-> DProdA(B, vars[v])],
-      dcb |-> [v \in 1..V |-> DProdB(A, vars[v])],
-      d2c |-> [v \in 1..V |-> [w \in 1..V |-> D2ProdAB(n, vars[v], vars[w])]]]
+      dca |-> TLCEval([v \in 1..V |-> DProdA(B, vars[v])]),
+      dcb |-> TLCEval([v \in 1..V |-> DProdB(A, vars[v])]),
+      d2c |-> TLCEval([v \in 1..V |-> TLCEval([w \in 1..V |-> D2ProdAB(n, vars[v], vars[w])])])]
 
 DSpdRecord(c) ==
   LET L == SpdL(c.n, c.idx)
@@ -166,18 +167,18 @@ DSpdRecord(c) ==
       V == Len(vars)
   IN [k |-> "dspd", fam |-> c.fam, n |-> n, idx |-> c.idx, a |-> A, L |-> L, det |-> det,
       vars |-> vars, kap |-> R2(KappaFrom(A, adj, det)), inv |-> RM2(InvFrom(adj, det)),
-      dlogdet |-> [v \in 1..V |-> R2(Rat(NDLogDetSym(adj, vars[v]), det))],
-      ddet |-> [v \in 1..V |-> NDLogDetSym(adj, vars[v])],
-      dinv |-> [v \in 1..V |-> RM2(RatM(NDInvSym(adj, vars[v]), det * det))],
-      dL |-> [v \in 1..V |-> RM2(RatM(NDChol(L, vars[v]), 2 * dl * dl))]]
+      dlogdet |-> TLCEval([v \in 1..V |-> R2(Rat(NDLogDetSym(adj, vars[v]), det))]),
+      ddet |-> TLCEval([v \in 1..V |-> NDLogDetSym(adj, vars[v])]),
+      dinv |-> TLCEval([v \in 1..V |-> RM2(RatM(NDInvSym(adj, vars[v]), det * det))]),
+      dL |-> TLCEval([v \in 1..V |-> RM2(RatM(NDChol(L, vars[v]), 2 * dl * dl))])]
 
 PolyRecord(c) ==
   LET F == MapOf(c.idx)
       x == PointOf(c.idx)
   IN [k |-> "poly", fam |-> "poly", n |-> NV, idx |-> c.idx, f |-> F, x |-> RV2(x),
-      val |-> [k \in 1..3 |-> R2(PolyVal(F[k], x))],
-      jac |-> [k \in 1..3 |-> [i \in 1..NV |-> R2(PolyVal(DPoly(F[k], i), x))]],
-      hess |-> [i \in 1..NV |-> [j \in 1..NV |-> R2(PolyVal(DPoly(DPoly(F[1], i), j), x))]]]
+      val |-> TLCEval([k \in 1..3 |-> R2(PolyVal(F[k], x))]),
+      jac |-> TLCEval([k \in 1..3 |-> TLCEval([i \in 1..NV |-> R2(PolyVal(DPoly(F[k], i), x))])]),
+      hess |-> TLCEval([i \in 1..NV |-> TLCEval([j \in 1..NV |-> R2(PolyVal(DPoly(DPoly(F[1], i), j), x))])])]
 
 HasRecord(c) == c.fam = "poly" \/ Det(MatOf(c)) # 0
 DRecord(c) == IF c.fam = "poly" THEN PolyRecord(c)
@@ -214,7 +215,8 @@ CalcHolds(c) ==
               v == sv[(c.idx % Len(sv)) + 1]
               N == NDChol(L, v)
               S == SymDir(n, v)
-          IN (* dL L' + L dL' = S  with dL = N / (2 dl^2) *)
+          IN /\ Cardinality({sv[t] : t \in 1..Len(sv)}) = Len(sv)      \* activated pairs are distinct
+             (* dL L' + L dL' = S  with dL = N / (2 dl^2) *)
              /\ IAdd(MulII(N, Transpose(L)), MulII(L, Transpose(N))) = ScaleM(2 * dl * dl, S)
              /\ IsLowerTri(N)
              (* A dX + S X = 0 *)
@@ -229,7 +231,8 @@ CalcHolds(c) ==
               w == vars[((c.idx \div 4) % Len(vars)) + 1]
               Ev == IE(n, v[1], v[2])
               Ew == IE(n, w[1], w[2])
-          IN /\ \A t \in 1..Len(vars) : DDet(A, vars[t]) = Cof(A, vars[t][1], vars[t][2])
+          IN /\ Cardinality({vars[t] : t \in 1..Len(vars)}) = Len(vars)  \* activated entries are distinct
+             /\ \A t \in 1..Len(vars) : DDet(A, vars[t]) = Cof(A, vars[t][1], vars[t][2])
              (* d ln det / dA_v = Inv[j][i] *)
              /\ \A t \in 1..Len(vars) : DDet(A, vars[t]) = adj[vars[t][2]][vars[t][1]]
              (* A dX_v + E_v X = 0 *)
